@@ -197,7 +197,10 @@ class NICObservation(AbstractObservation, discriminator="network-interface"):
                         for port in self.monitored_traffic[protocol]:
                             obs["TRAFFIC"][protocol][port] = {"inbound": 0, "outbound": 0}
 
-        if self.capture_nmne and self.include_nmne:
+        if self.include_nmne and not (self.capture_nmne and "nmne" in nic_state):
+            # NMNE is part of the observation space but is not being captured: report no events
+            obs.update({"NMNE": {"inbound": 0, "outbound": 0}})
+        elif self.include_nmne:
             obs.update({"NMNE": {}})
             direction_dict = nic_state["nmne"].get("direction", {})
             inbound_keywords = direction_dict.get("inbound", {}).get("keywords", {})
